@@ -38,6 +38,12 @@ pub struct Case {
     /// (statement id, declared parameter count)
     pub stmts: Vec<(u32, usize)>,
     pub ops: Vec<Op>,
+    /// after the history: PREPARE answered once more with the id and parameter count of statement
+    /// `.0` (a new statement under an id that is still open), then an execution of it that binds no
+    /// types, with parameters `.1` encoded per the *old* statement's types.  No types were ever
+    /// bound for the new statement, so there is no way to decode it: it must not reach the shim.
+    #[serde(default)]
+    pub tail_unbound: Option<(usize, Vec<Param>)>,
 }
 
 /// Build the conversation of a statement history and the model's expectation of every
@@ -89,6 +95,13 @@ pub fn build_history(case: &Case) -> (Conversation, Vec<(u32, Vec<(u8, Inner, Op
             }
         }
     }
+    if let Some((stmt, params)) = &case.tail_unbound {
+        let (id, n) = case.stmts[*stmt];
+        cmds.push(Cmd::Prepare { text: Blob::text("another statement") });
+        actions.push(Action::Prepare(PrepProg::Reply { id, params: (0..n).map(|i| ColSpec::simple(&format!("q{}", i), T_VAR_STRING, 0)).collect(), cols: vec![] }));
+        cmds.push(Cmd::Execute { id, params: params.clone(), send_types: false, flags: 0, iterations: 1 });
+        actions.push(Action::Result(Program::completed(0, 0)));
+    }
     let mut conv = Conversation::new(cmds, actions);
     conv.param_takes = takes;
     (conv, want)
@@ -101,11 +114,20 @@ pub fn judge_history(prefix: &str, case: &Case, ex: &mut Exec, check_conv: bool)
         ex.fail(format!("{}-panic|{}", prefix, panic_signature(p)), format!("run_on panicked: {}", o.result.brief()));
         return;
     }
-    if !o.result.is_ok() {
+    if !o.result.is_ok() && case.tail_unbound.is_none() {
         ex.fail(format!("{}-run-result", prefix), format!("run_on returned {}", o.result.brief()));
         return;
     }
     let execs: Vec<&Event> = o.events.iter().filter(|e| matches!(e, Event::Execute { .. })).collect();
+    if case.tail_unbound.is_some() && execs.len() == want.len() + 1 {
+        if let Some(Event::Execute { id, params }) = execs.last() {
+            ex.fail(
+                format!("{}-unbound-execution-decoded", prefix),
+                format!("statement {} was prepared anew and executed without ever binding types, yet the execution reached the shim decoded as [{}] (types of the statement that held the id before)", id, params.iter().map(|p| format!("type {} {}", p.coltype, brief_inner(&p.inner))).collect::<Vec<_>>().join(", ")),
+            );
+        }
+        return;
+    }
     if execs.len() != want.len() {
         ex.fail(format!("{}-exec-count", prefix), format!("{} executions reached the shim, client sent {}", execs.len(), want.len()));
         return;
@@ -121,6 +143,10 @@ pub fn judge_history(prefix: &str, case: &Case, ex: &mut Exec, check_conv: bool)
                 return;
             }
         }
+    }
+    if case.tail_unbound.is_some() {
+        // how the refusal is reported (an error return, an ERR packet) is not this property's business
+        return;
     }
     // replies: every execute answered
     let kinds: Vec<ReplyKind> = conv.cmds.iter().map(|sc| sc.cmd.reply_kind()).collect();
@@ -141,7 +167,7 @@ impl Prop for C16 {
         "C16"
     }
     fn rule(&self) -> String {
-        "cases = 2-4 prepared statements with 1-12 parameters and a history of 2-30 executions; each execution picks a statement and either rebinds (new-params-bound = 1 with freshly generated types, or with the bound types changed only in some signedness flags or in a single position) or reuses (flag = 0, no type block; the first execution after a prepare always binds, as the protocol requires); values are encoded per the types in force in the reference model types[stmt]. Oracle: the shim must see exactly the model's (type code, ValueInner) lists for every execution.  In 1 of 5 executions the shim pulls only a prefix of the parameters (possibly none) from the iterator; what that execution bound must persist all the same. Non-trivial = some reuse happens after a rebind of a *different* statement (so a single global type table would be caught), or a reuse follows a rebind to different types of the same statement.".into()
+        "cases = 2-4 prepared statements with 1-12 parameters and a history of 2-30 executions; each execution picks a statement and either rebinds (new-params-bound = 1 with freshly generated types, or with the bound types changed only in some signedness flags or in a single position) or reuses (flag = 0, no type block; the first execution after a prepare always binds, as the protocol requires); values are encoded per the types in force in the reference model types[stmt]. Oracle: the shim must see exactly the model's (type code, ValueInner) lists for every execution.  In 1 of 5 executions the shim pulls only a prefix of the parameters (possibly none) from the iterator; what that execution bound must persist all the same. One history in ten has the shim hand out an id that is still open for a new statement (same parameter count) in mid-history, after which the next execution binds afresh; one in eight ends with such a new statement being executed *without* binding types (parameters encoded per the old statement's types), which must never reach the shim. Non-trivial = some reuse happens after a rebind of a *different* statement (so a single global type table would be caught), or a reuse follows a rebind to different types of the same statement.".into()
     }
     fn assumptions(&self) -> Vec<String> {
         vec!["the recording shim iterates all parameters of every execution, as every caller in the repository does (the library parses the type block lazily inside the iterator)".into()]
@@ -174,6 +200,12 @@ impl Prop for C16 {
         let mut ops = Vec::new();
         for _ in 0..nops {
             let s = g.below(ns as u64) as usize;
+            if types[s].is_some() && g.chance(1, 10) {
+                // the shim answers another PREPARE with this (still open) id: a new statement, for
+                // which nothing is bound yet
+                ops.push(Op::Reprepare { stmt: s });
+                types[s] = None;
+            }
             let rebind = types[s].is_none() || g.chance(2, 5);
             if rebind {
                 let fresh: Vec<(u8, bool)> = (0..stmts[s].1).map(|_| gen_param_type(g)).collect();
@@ -196,7 +228,14 @@ impl Prop for C16 {
                 ops.push(Op::Ping);
             }
         }
-        Case { stmts, ops }
+        let bound: Vec<usize> = (0..ns).filter(|&s| types[s].is_some()).collect();
+        let tail_unbound = if !bound.is_empty() && g.chance(1, 8) {
+            let s = *g.pick(&bound);
+            Some((s, params_for(g, types[s].as_ref().unwrap())))
+        } else {
+            None
+        };
+        Case { stmts, ops, tail_unbound }
     }
     fn exec(&self, case: &Case) -> Exec {
         let mut ex = Exec::default();
@@ -222,6 +261,13 @@ impl Prop for C16 {
         }
         if reuse_after_other {
             ex.class("reuse-after-rebind-of-other-statement");
+        }
+        if case.ops.iter().any(|o| matches!(o, Op::Reprepare { .. })) {
+            ex.class("open-id-prepared-anew-mid-history");
+        }
+        if case.tail_unbound.is_some() {
+            ex.class("tail:new-statement-under-open-id-executed-without-types");
+            ex.nontrivial = true;
         }
         judge_history("c16", case, &mut ex, false);
         ex
